@@ -403,6 +403,11 @@ func genC09(t *rapid.T) C09Case {
 		c.Thr = rapid.SampledFrom([]int{-1, -1, 0, 1, 64, 256}).Draw(t, "thr")
 		id := genID(t)
 		c.Frame = &C07Frame{ID: id, Len: rapid.SampledFrom([]int{0, 1, 2, 5, 63, 64, 65, 127, 128, 300, 1000}).Draw(t, "len"), Kind: rapid.IntRange(0, 2).Draw(t, "kind"), Seed: rapid.Byte().Draw(t, "seed")}
+		if rapid.IntRange(0, 30).Draw(t, "window") == 17 {
+			// id + payload exactly fill k inflate windows (32 KiB): the decompressor has produced everything
+			// before it has seen the end of the compressed stream
+			c.Frame.Len = 32768*rapid.IntRange(1, 2).Draw(t, "windows") - idLen(id) + rapid.SampledFrom([]int{0, 0, 0, -1, 1}).Draw(t, "windowoff")
+		}
 	case "field":
 		f := genField(t, 1, true)
 		clampField(&f)
